@@ -1,9 +1,98 @@
-(* C03 — strategies place instances according to their documented balancing rule. *)
-From Coq Require Import String ZArith List.
-From Verif Require Import Base.GoInt Strategy.Model Strategy.ProofsOld.
+(* C03 — strategies place instances according to their documented balancing rule.
+   fin p x = count x + p x;  usage_fin p x = the float the code computes by adding
+   rate to usage p x times (binary64, round to nearest even). *)
+From Coq Require Import String ZArith List Permutation Sorted.
+From Verif Require Import Base.GoInt Base.GoFloat Base.GoSort Base.GoSortSpec Strategy.Model Strategy.ProofsBase
+  Strategy.ProofsSort Strategy.Proofs Strategy.ProofsOk Strategy.ProofsOld Strategy.Statements.
+Local Open Scope Z_scope.
 
-(* the code before the repair (fix: DRAINED comparator) violated the property *)
+(* AUTO: a node that received an instance never ends more than one above a node
+   that could still have taken one *)
+Theorem C03_auto : forall infos need limit total p,
+  valid_infos infos -> 0 < need -> 0 <= limit ->
+  deploy Auto need limit infos total = Ok p ->
+  forall a b, In a infos -> In b infos ->
+  1 <= mget p (name a) -> 1 <= cap b - mget p (name b) -> (limit = 0 \/ fin p b < limit) ->
+  fin p a <= fin p b + 1.
+Proof. exact C03_auto_stmt. Qed.
+Print Assumptions C03_auto.
+
+(* GLOBAL: float-exact form of "never ends above a node with spare capacity by
+   more than that node's per-instance share" (usage, rate finite, rate >= 0) *)
+Theorem C03_global : forall infos need limit total p,
+  valid_infos infos -> 0 < need -> 0 <= limit -> float_ok infos ->
+  deploy Global need limit infos total = Ok p ->
+  forall a b, In a infos -> In b infos ->
+  1 <= mget p (name a) -> 1 <= cap b - mget p (name b) ->
+  fle (usage_fin p a) (fadd (usage_fin p b) (rate b)) = true.
+Proof. exact C03_global_stmt. Qed.
+Print Assumptions C03_global.
+
+(* DRAINED: every smaller-capacity node is filled completely before a larger one is used *)
+Theorem C03_drained : forall infos need limit total p,
+  valid_infos infos -> 0 < need -> 0 <= limit ->
+  deploy Drained need limit infos total = Ok p ->
+  forall a b, In a infos -> In b infos ->
+  cap a < cap b -> 1 <= mget p (name b) -> mget p (name a) = cap a.
+Proof. exact C03_drained_stmt. Qed.
+Print Assumptions C03_drained.
+
+(* EACH: the selected nodes are those with the most capacity *)
+Theorem C03_each : forall infos need limit total p,
+  valid_infos infos -> 0 < need -> 0 <= limit ->
+  deploy Each need limit infos total = Ok p ->
+  forall a b, In a infos -> In b infos ->
+  mhas p (name a) = true -> mhas p (name b) = false -> cap b <= cap a.
+Proof. exact C03_each_stmt. Qed.
+Print Assumptions C03_each.
+
+(* FILL: nodes already running more instances are preferred (then more capacity) *)
+Theorem C03_fill : forall infos need limit total p,
+  valid_infos infos -> 0 < need -> 0 <= limit ->
+  is_plan (deploy Fill need limit infos total) p ->
+  forall a b, In a infos -> In b infos ->
+  mhas p (name a) = true -> mhas p (name b) = false -> need <= cnt b + cap b ->
+  cnt b < cnt a \/ (cnt b = cnt a /\ cap b <= cap a).
+Proof. exact C03_fill_stmt. Qed.
+Print Assumptions C03_fill.
+
+(* the same three rules for EVERY sorted permutation sort.Slice may produce *)
+Theorem C03_each_any_sorted_order : forall infos sorted need limit,
+  valid_infos infos -> Permutation infos sorted -> Sorted (ngt each_less) sorted -> 0 <= limit ->
+  forall p, each_from sorted need (each_limit infos limit) = Ok p -> C03_spec Each need limit infos p.
+Proof. exact each_C03. Qed.
+Print Assumptions C03_each_any_sorted_order.
+
+Theorem C03_fill_any_sorted_order : forall infos sorted need limit,
+  valid_infos infos -> Permutation infos sorted -> Sorted (ngt fill_less) sorted -> 0 <= limit ->
+  forall r p, fill_from sorted need (each_limit infos limit) = r -> is_plan r p ->
+  C03_spec Fill need limit infos p.
+Proof. exact fill_C03. Qed.
+Print Assumptions C03_fill_any_sorted_order.
+
+Theorem C03_drained_any_sorted_order : forall infos sorted need total,
+  valid_infos infos -> Permutation infos sorted -> Sorted (ngt drained_less) sorted -> 0 < need ->
+  forall p limit, drained_from sorted need total = Ok p -> C03_spec Drained need limit infos p.
+Proof. exact drained_C03. Qed.
+Print Assumptions C03_drained_any_sorted_order.
+
+(* the code before the repair (/repo: "fix: DRAINED sort comparator ...") violated
+   the property: big (capacity 3) got both instances, small (capacity 1) none *)
 Theorem C03_drained_old_refuted :
-  exists p, drained_old w_drained 2 4 = Ok p /\ mget p "big" = 2%Z /\ mget p "small" = 0%Z.
+  exists p, drained_old w_drained 2 4 = Ok p /\ mget p "big" = 2 /\ mget p "small" = 0.
 Proof. exact drained_old_refuted. Qed.
 Print Assumptions C03_drained_old_refuted.
+
+Theorem C03_ok_reflects : forall s need limit infos p,
+  all_pairs (C03_pair s need limit p) infos = true <-> C03_spec s need limit infos p.
+Proof. exact C03_reflect. Qed.
+Print Assumptions C03_ok_reflects.
+
+Theorem C03_ok_sound_on_model : forall s need limit infos total ord,
+  C03_ok (mkCase s need limit infos total (deploy s need limit infos total) ord) = true.
+Proof. exact C03_ok_model. Qed.
+Print Assumptions C03_ok_sound_on_model.
+
+Theorem C03_hypotheses_satisfiable : valid_infos ex_infos /\ float_ok ex_infos.
+Proof. exact (conj ex_valid ex_float_ok). Qed.
+Print Assumptions C03_hypotheses_satisfiable.
